@@ -52,6 +52,8 @@ def run(prog, chk):
     lin_buffer.run(prog, chk, c08.methods(prog), rid="C13.i")
     send_reports_accepted_bytes(prog, chk, "C13.j")
     client_write_table(prog, chk, "C13.l")
+    from . import c14 as _c14
+    _c14.event_translation_tables(prog, chk, "C13.n")     # level-triggered registration: a write event that lost against a read is reported again
     c08.window_trims(prog, chk, "C13.m")      # the drain arm removes what the socket took with removeFront(sent)
     # the send backlog is a Buffer that is freed whenever it has drained and grown again by the next partial send: the pairing of
     # `buffer = 0` with `_capacity = 0` (C08.b0) and the terminator obligation (C08.a) decide clauses of this property as well
